@@ -6,6 +6,11 @@ TIER="${1:-quick}"
 cd "$(dirname "$0")"
 V="$(pwd)"
 export VERIF_ROOT="$V"
+# inside a `vp run --with-repo` snapshot: build against the snapshot of /repo's HEAD, so that
+# temporary edits of /repo (seeded changes being evaluated) cannot leak into a long run
+if [ -n "${VP_RUN_REPO:-}" ] && [ "$V" != "/verif" ] && [ -d "$VP_RUN_REPO/src" ]; then
+  sed -i "s|path = \"/repo\"|path = \"$VP_RUN_REPO\"|" "$V/harness/Cargo.toml"
+fi
 export CARGO_NET_OFFLINE=true MALLOC_TRIM_THRESHOLD_=2000000000 MALLOC_TOP_PAD_=67108864
 T0=$(date +%s.%N)
 # name|toolchain|cargo feature args
